@@ -2847,6 +2847,12 @@ func (db *DB) importToLTX(ctx context.Context, r io.Reader) (ltx.Pos, error) {
 		return ltx.Pos{}, fmt.Errorf("read database header: %w", err)
 	}
 
+	// The page size of a database is fixed once it is known. Refuse the image
+	// here, before an LTX file is published that could never be applied.
+	if db.pageSize != 0 && hdr.PageSize != db.pageSize {
+		return ltx.Pos{}, fmt.Errorf("image page size (%d) does not match database page size (%d)", hdr.PageSize, db.pageSize)
+	}
+
 	// Prepend header back onto original reader.
 	r = io.MultiReader(bytes.NewReader(data), r)
 
